@@ -117,8 +117,26 @@ def _meta(ck: Checker) -> None:
                     ck.require(tested.endswith("is not None"), "C20.meta", td, st, f"numeric field {attr} is emitted whenever it is not None (0 survives)",
                                f"numeric field `{attr}` is guarded by truthiness (`if {tested}`): a value of 0 is dropped and reads back as None", construct=f"if {tested} / numeric")
     ck.floor("C20.meta", n, 8, "fields emitted by Meta.to_dict")
-    src = " ".join(norm(x) for x in walk_own(fd.node))
-    ck.require("for field_ in cls.fields" in src and "d[field_]" in src, "C20.meta", fd, fd.node, "from_dict reads every declared field by its name", "Meta.from_dict no longer reads the declared fields by name")
+    from ..an import collection_builds
+
+    gfd = ck.cfg(fd)
+    dpar = fd.pos_params[-1]
+    okf, why = False, "no field-by-field copy found"
+    cands = {x.targets[0].id for x in walk_own(fd.node) if isinstance(x, ast.Assign) and isinstance(x.targets[0], ast.Name)} | {x.target.id for x in walk_own(fd.node) if isinstance(x, ast.AnnAssign) and isinstance(x.target, ast.Name)}
+    for nm in sorted(cands):
+        for b in collection_builds(gfd, fd.node, nm):
+            if b.key is None or norm(b.src) not in ("cls.fields", "Meta.fields"):
+                continue
+            fv = b.target_names()[0] if b.target_names() else None
+            val_ok = norm(b.elt) == f"{dpar}[{fv}]" and norm(b.key) == fv
+            member = [i for i in b.ifs if isinstance(i, ast.Compare) and len(i.ops) == 1 and isinstance(i.ops[0], ast.In) and norm(i.left) == fv and norm(i.comparators[0]) == dpar]
+            other = [i for i in b.ifs if i not in member]
+            okf = val_ok and bool(member) and not other
+            if other:
+                why = f"fields are filtered by {[norm(i) for i in other]} instead of plain membership: a stored 0 / False is dropped when reading back"
+            elif not member:
+                why = "fields are copied without a membership test"
+    ck.require(okf, "C20.meta", fd, fd.node, "from_dict copies every declared field that is present in the dict (membership, not truthiness)", f"Meta.from_dict: {why}")
     mod = prog.module("hashfile.meta")
     tail = " ".join(norm(s) for s in mod.tree.body if isinstance(s, ast.Assign))
     ck.require("Meta.fields = list(fields_dict(Meta))" in tail, "C20.meta", fd, fd.node, "Meta.fields is the list of attrs fields", "Meta.fields is no longer derived from the attrs field table", construct="Meta.fields")
